@@ -914,10 +914,16 @@ def c02_case(tid, victim, frame_index, op, rng):
                         n = len(fr["body"]) // 2
                         t["pos"] = {"first": 0, "last": n - 1, "mid": n // 2, "rand": rng.randrange(max(1, n))}[t.get("where", "rand")]
                         t["bit"] = rng.randrange(8)
-                    if t["op"] == "replay":
-                        # the same body delivered again under another phase label
-                        run.apply({"a": "Dup", "k": conn.id, "m": 0})
+                    if t["op"] in ("replay", "replay-next"):
+                        # the same body delivered again under another phase label (and, optionally, another side) - after
+                        # everything else that is queued, or right behind the original, i.e. before the genuine frame of that phase
+                        # ("replay": the first stored message of the mailbox, i.e. a PAKE body; "replay-next": this very frame)
+                        run.apply({"a": "Dup", "k": conn.id, "m": 0} if t["op"] == "replay" else {"a": "DupS2C", "k": conn.id, "i": 0})
                         run.apply({"a": "TamperS2C", "k": conn.id, "i": len(conn.s2c) - 1, "op": "phase", "v": t["v"]})
+                        if t.get("side"):
+                            run.apply({"a": "TamperS2C", "k": conn.id, "i": len(conn.s2c) - 1, "op": "side", "v": t["side"]})
+                        if t["op"] == "replay-next" and not t.get("end"):
+                            run.apply({"a": "MoveS2C", "k": conn.id, "i": len(conn.s2c) - 1, "to": 1})
                     else:
                         run.apply(dict({"a": "TamperS2C", "k": conn.id, "i": 0}, **t))
                     done = True
@@ -1446,7 +1452,11 @@ def run_pipeline(prop, tier, v, quick):
                    {"op": "side", "v": "own+"}, {"op": "side", "v": "peer+"}, {"op": "side", "v": "+peer"},
                    {"op": "side", "v": "OWN"}, {"op": "side", "v": "PEER"}, {"op": "side", "v": "Own"},
                    {"op": "phase", "v": "0\u0661"}, {"op": "phase", "v": "\u0660" + "1"}, {"op": "phase", "v": "versi\u00f6n"},
-                   {"op": "replay", "v": "0\u0661"}, {"op": "replay", "v": "1\u0660"}, {"op": "replay", "v": "\u0660" + "2"}]
+                   {"op": "replay", "v": "0\u0661"}, {"op": "replay", "v": "1\u0660"}, {"op": "replay", "v": "\u0660" + "2"},
+                   {"op": "replay-next", "v": "1"}, {"op": "replay-next", "v": "0"}, {"op": "replay-next", "v": "version"},
+                   {"op": "replay-next", "v": "2"}, {"op": "replay-next", "v": "1", "side": "f0f0f0f0f0"},
+                   {"op": "replay-next", "v": "0", "side": "f0f0f0f0f0"},
+                   {"op": "replay-next", "v": "1", "end": True}, {"op": "replay-next", "v": "3", "end": True}]
             n = 0
             for victim in ("A", "B"):
                 for idx in range(7):
